@@ -1,4 +1,5 @@
 """Property -> rules."""
+import os
 import re
 
 from . import facts
@@ -27,6 +28,9 @@ def run(pid, ctx):
     try:
         from . import selftest
         selftest.run(ctx)
+        if ctx.tier == "thorough" and not os.environ.get("VERIF_EVIDENCE_DIR"):
+            from . import mutants
+            mutants.run(ctx)
         return PROPS[pid](ctx)
     except facts.AnchorMissing as e:
         ctx.anchor_missing("ANCHOR", str(e))
